@@ -155,6 +155,23 @@ func handle(f []string) string {
 			return fmt.Sprintf("rt %d ok %s | dec %d %s -", n, lp.Hex(buf[:n]), dn, codecx.ErrKind(de))
 		}
 		return fmt.Sprintf("rt %d ok %s | dec %d ok %s", n, lp.Hex(buf[:n]), dn, codecx.FmtMsg(cname, &d))
+	case "ptok":
+		// the pooled entry point every transport uses: the token goes through pool.Message.SetToken
+		m, _, err := codecx.ParseMsg(f[2:])
+		if err != nil {
+			return "bad-op"
+		}
+		tok := m.Token
+		m.Token = nil
+		src := codecx.NewPooled("fresh", 0)
+		src.SetMessage(m)
+		src.SetToken(tok)
+		out, e := src.MarshalWithEncoder(c)
+		back := lp.Hex(src.Token())
+		if e != nil {
+			return fmt.Sprintf("ptok %s - tok=%s", codecx.ErrKind(e), back)
+		}
+		return fmt.Sprintf("ptok ok %s tok=%s", lp.Hex(out), back)
 	case "pool":
 		if len(f) < 4 {
 			return "bad-op"
